@@ -31,7 +31,7 @@ ReqDtypes(c) == CASE c \in {"IntensitySignal", "FullStokesSignal"} -> <<"float64
                   [] IsBaseband(c) -> <<"complex128", "complex64">>
                   [] OTHER -> <<>>
 
-Shapes == {<<>>, <<0>>, <<3>>, <<3, 0>>, <<3, 1>>, <<3, 2>>, <<0, 2>>, <<3, 2, 4>>, <<3, 2, 2>>,
+Shapes == {<<>>, <<0>>, <<3>>, <<3, 0>>, <<0, 0>>, <<0, 2, 0>>, <<0, 2, 4, 0>>, <<3, 1>>, <<3, 2>>, <<0, 2>>, <<3, 2, 4>>, <<3, 2, 2>>,
            <<3, 2, 3>>, <<3, 2, 0>>, <<0, 2, 4>>, <<0, 1, 2>>, <<3, 2, 4, 1>>, <<3, 2, 2, 3>>,
            <<3, 2, 2, 0>>, <<3, 1, 4, 2, 2>>}
 DTypes == {"bool", "int8", "int32", "int64", "uint8", "uint64", "float16", "float32", "float64",
@@ -46,10 +46,12 @@ SafeCast(dt, target) ==
 \* catalogues: kind -> "ok" | "err" | "either" (accepted-or-refused is not fixed by the property)
 RateKinds == [MHz1 |-> "ok", kHz250 |-> "ok", GHz2 |-> "ok", mHz1 |-> "ok",
               zero |-> "err", neg |-> "err", sec |-> "err", float |-> "err", array |-> "err",
+              array1 |-> "err", array11 |-> "err",      \* one-element arrays are not scalars
               dimless |-> "err", none |-> "err", nan |-> "err", inf |-> "either"]
 CfKinds == [GHz1 |-> "ok", zero |-> "ok", neg |-> "ok", kHz5 |-> "ok",
-            sec |-> "err", float |-> "err", array |-> "err", none |-> "err", nan |-> "either"]
-StartKinds == [none |-> "ok", time |-> "ok", time_mjd |-> "ok", isot_str |-> "either",
+            sec |-> "err", float |-> "err", array |-> "err", array1 |-> "err", none |-> "err", nan |-> "either"]
+StartKinds == [none |-> "ok", time |-> "ok", time_mjd |-> "ok", time_tai |-> "ok", time_subns |-> "ok",
+               time_array1 |-> "err", isot_str |-> "either",
                float |-> "err", time_array |-> "err", garbage |-> "err", list |-> "err"]
 MetaKinds == [none |-> "ok", dict |-> "ok", empty |-> "ok", pairs |-> "either",
               int |-> "err", string |-> "err", list_ints |-> "err"]
